@@ -127,7 +127,7 @@ class Ctx:
             cov["violation_signatures"] = [v[0] for v in self.violations]
         ev = dict(property_id=self.pid, tier=self.tier, seed=self.seed, level=self.level, coverage=cov,
                   assumptions=self.assumptions, wall_s=round(time.time() - self.t0, 2), violations=len(self.violations))
-        evdir = EVID
+        evdir = os.environ.get("VERIF_EVIDENCE_DIR") or EVID    # seed sweeps keep their evidence apart
         scratch = os.environ.get("VERIF_REPO")
         if scratch and os.path.realpath(scratch) != "/repo":
             # a run against a scratch copy (mutant / candidate fix) must never overwrite the evidence of /repo itself
